@@ -39,7 +39,7 @@ package handlers
 // Announcements from a peer are ignored until it is verified; requests it triggers are recorded as
 // untrusted (C14's AddRequest contract: an untrusted call never sets the trusted mark).
 //@ func (*UntrustedInvHandler).Handle
-//@   serves C12
+//@   serves C12 C14
 //@   opt nomonitor = 1
 //@   opt partial = 1
 //@   requires handler != nil && handler.state != nil && handler.memPool != nil && handler.tracker != nil
@@ -49,6 +49,9 @@ package handlers
 //@   loop 0 invariant state.InvTx(handler.memPool) && handler.tracker.txids != nil
 //@   assert request_untrusted at call AddRequest : [C12] !arg3 && handler.state.verified
 //@   assert track_verified at call Add : [C12] handler.state.verified
+//@   assert asks_only_when_granted at call AddInvVect : [C14] !alreadyHave && shouldRequest && arg1 == item
+//@   assert tracks_only_when_waiting at call TxTracker.Add : [C14] !alreadyHave && !shouldRequest && arg1 == item.Hash
+//@   ensures last_message_returned afterloop 0 : [C14] result1 == nil && len(invRequest.InvList) > 0 ==> len(result0) > 0 && typeis(result0[len(result0) - 1], *wire.MsgGetData) && as(result0[len(result0) - 1], *wire.MsgGetData) == invRequest
 //@   ensures isolated: [C12] isolated()
 
 // A transaction from an untrusted peer enters the pipeline marked untrusted and unconfirmed.
@@ -150,3 +153,19 @@ package handlers
 //@   loop 0 invariant hbase(handler) && (handler.state.startHeight == -1 ==> len(handler.state.blocksToRequest) == 0 && len(handler.state.blocksRequested) == 0 && lastHash == tipHash(handler.blocks) && handler.state.lastSavedHash == lastHash)
 //@   loop 1 invariant hbase(handler)
 //@   loop 2 invariant hbase(handler)
+
+// C14: the trusted connection's inventory handler asks for a transaction exactly when AddRequest
+// granted the request, remembers it in the tracker exactly when another request is still within
+// its window, and returns every get-data message it filled.
+//@ func (*InvHandler).Handle
+//@   serves C14
+//@   opt nomonitor = 1
+//@   opt partial = 1
+//@   requires handler != nil && handler.state != nil && handler.memPool != nil && handler.tracker != nil
+//@   requires state.InvTx(handler.memPool) && handler.tracker.txids != nil && !held(handler.memPool.mutex) && !held(handler.tracker.mutex)
+//@   requires typeis(m, *wire.MsgInv) ==> forall(k, 0, len(as(m, *wire.MsgInv).InvList), as(m, *wire.MsgInv).InvList[k] != nil)
+//@   loop 0 invariant 0 <= _i && _i <= len(msg.InvList) && state.InvTx(handler.memPool) && handler.tracker.txids != nil && !held(handler.memPool.mutex) && !held(handler.tracker.mutex) && same(handler.memPool, handler.tracker)
+//@   assert request_is_trusted at call AddRequest : [C14] arg3
+//@   assert asks_only_when_granted at call AddInvVect : [C14] !alreadyHave && shouldRequest && arg1 == item
+//@   assert tracks_only_when_waiting at call TxTracker.Add : [C14] !alreadyHave && !shouldRequest && arg1 == item.Hash
+//@   ensures last_message_returned afterloop 0 : [C14] result1 == nil && len(invRequest.InvList) > 0 ==> len(result0) > 0 && typeis(result0[len(result0) - 1], *wire.MsgGetData) && as(result0[len(result0) - 1], *wire.MsgGetData) == invRequest
